@@ -597,7 +597,12 @@ impl<'a> KMergeIterator<'a> {
 						if let (Some(newest), Some(oldest)) =
 							(props.newest_key_time, props.oldest_key_time)
 						{
-							if newest < ts_start || oldest > ts_end {
+							// A table whose entries are all NEWER than the window may
+							// still hold a hard delete or a replace that erases versions
+							// inside the window, so only tables that are entirely older
+							// than the window are skipped.
+							let _ = (oldest, ts_end);
+							if newest < ts_start {
 								continue;
 							}
 						}
@@ -622,7 +627,12 @@ impl<'a> KMergeIterator<'a> {
 						if let (Some(newest), Some(oldest)) =
 							(props.newest_key_time, props.oldest_key_time)
 						{
-							if newest < ts_start || oldest > ts_end {
+							// A table whose entries are all NEWER than the window may
+							// still hold a hard delete or a replace that erases versions
+							// inside the window, so only tables that are entirely older
+							// than the window are skipped.
+							let _ = (oldest, ts_end);
+							if newest < ts_start {
 								continue;
 							}
 						}
@@ -1502,9 +1512,12 @@ impl<'a> HistoryIterator<'a> {
 		while self.inner_valid() {
 			let next_key_vec = self.inner_key().user_key().to_vec();
 			if next_key_vec != current {
-				// Found next key - seek to (next_key, ts_end) to skip entries above range
+				// Found next key - seek to its newest version: versions above the
+				// range are not listed, but a hard delete or replace among them
+				// erases the versions inside the range
+				let _ = ts_end;
 				let seek_key =
-					InternalKey::new(next_key_vec, u64::MAX, InternalKeyKind::Set, ts_end);
+					InternalKey::new(next_key_vec, u64::MAX, InternalKeyKind::Set, u64::MAX);
 				self.inner.seek(&seek_key.encode())?;
 				return Ok(self.inner_valid());
 			}
@@ -1597,14 +1610,14 @@ impl<'a> HistoryIterator<'a> {
 				continue;
 			}
 
-			// Skip entries outside timestamp range
+			// Entries above the timestamp range are not listed, but they still take
+			// part in the barrier logic below: a hard delete or a replace above the
+			// range erases the versions inside it.
+			let mut above_range = false;
 			if let Some((ts_start, ts_end)) = self.ts_range {
 				if timestamp > ts_end {
-					// Above range - skip, next entries might be in range
-					self.inner_next()?;
-					continue;
-				}
-				if timestamp < ts_start {
+					above_range = true;
+				} else if timestamp < ts_start {
 					// Below range - all remaining entries for this key are also below
 					// (timestamps are ordered descending within a key).
 					// Skip to next user_key with optimization for B+tree.
@@ -1652,6 +1665,12 @@ impl<'a> HistoryIterator<'a> {
 
 			// Rule 5: Soft DELETE (tombstone) filtering
 			if !self.include_tombstones && is_tombstone {
+				self.inner_next()?;
+				continue;
+			}
+
+			// Above the timestamp range: took part in the barrier logic, not listed
+			if above_range {
 				self.inner_next()?;
 				continue;
 			}
@@ -1707,6 +1726,7 @@ impl<'a> HistoryIterator<'a> {
 		// Collect all visible versions
 		// Backward storage order: (user_key DESC, seq_num ASC) → oldest first
 		struct VersionInfo {
+			in_ts_range: bool,
 			is_hard_delete: bool,
 			is_replace: bool,
 			is_tombstone: bool,
@@ -1732,8 +1752,9 @@ impl<'a> HistoryIterator<'a> {
 				None => true,
 			};
 
-			if visible && in_ts_range {
+			if visible {
 				versions.push(VersionInfo {
+					in_ts_range,
 					is_hard_delete: key_ref.is_hard_delete_marker(),
 					is_replace: key_ref.is_replace(),
 					is_tombstone: key_ref.is_tombstone(),
@@ -1792,6 +1813,12 @@ impl<'a> HistoryIterator<'a> {
 
 			// Tombstone filtering
 			if !self.include_tombstones && v.is_tombstone {
+				continue;
+			}
+
+			// Versions outside the timestamp range took part in the barrier
+			// logic above but are not listed
+			if !v.in_ts_range {
 				continue;
 			}
 
@@ -1920,13 +1947,13 @@ impl LSMIterator for HistoryIterator<'_> {
 		self.reset_all_state();
 
 		if self.ts_range.is_some() {
-			// Seek to (lower_bound or empty, ts_end) to skip entries above range
-			let ts = self.ts_range.map(|(_, end)| end).unwrap_or(u64::MAX);
+			// Seek to the newest version of the first key (versions above the
+			// range are needed for the barrier logic)
 			let seek_key = InternalKey::new(
 				self.lower_bound.clone().unwrap_or_default(),
 				u64::MAX,
 				InternalKeyKind::Set,
-				ts,
+				u64::MAX,
 			);
 			self.inner.seek(&seek_key.encode())?;
 		} else if let Some(ref lower) = self.lower_bound {
